@@ -697,7 +697,12 @@ func (ls *LState) where(level int, skipg bool) string {
 	}
 	line := ""
 	if proto != nil {
-		line = fmt.Sprintf("%v:", proto.DbgSourcePositions[cf.Pc-1])
+		pc := cf.Pc - 1
+		if pc < 0 {
+			// the frame has not executed an instruction yet (error raised while the call is being set up)
+			pc = 0
+		}
+		line = fmt.Sprintf("%v:", proto.DbgSourcePositions[pc])
 	}
 	return fmt.Sprintf("%v:%v", sourcename, line)
 }
